@@ -28,6 +28,32 @@ def emit_hook(ev, n, st, fp):
     return out
 
 
+def emit_functions(F):
+    """local functions that are an emission primitive: they write their data argument through `write_unaligned` into
+    the code buffer and advance a field named `offset` (the `emit_bytes!` macro written as a generic method)"""
+    out = []
+    for p, fn in F.fns.items():
+        if not p.startswith("jit::") or not fn.get("thir") or "{closure" in p or len(fn["thir"]["params"]) != 2:
+            continue
+        body = fn["thir"]["body"]
+        writes = [x for x in walk(body) if x.get("k") == "call" and (callee_path(x) or "").endswith("write_unaligned")]
+        adv = [x for x in walk(body) if x.get("k") == "assignop" and strip(x["l"]).get("k") == "field" and strip(x["l"]).get("name") == "offset"]
+        # the written value is the function's own data parameter (not a wrapper around another emitter)
+        pn = fn["thir"]["params"][1]["pat"]["name"] if fn["thir"]["params"][1].get("pat") and fn["thir"]["params"][1]["pat"].get("k") == "bind" else None
+        if len(writes) == 1 and len(adv) == 1 and pn and any(x.get("k") in ("var", "upvar") and x.get("name") == pn for x in walk(writes[0]["args"][1])):
+            out.append(p)
+    return out
+
+
+def emit_model(ev, vals, n, s, path, gens):
+    v = vals[1]
+    w = symex._w(v) if isinstance(v, tuple) else 0
+    if not w:
+        w = ev.bits(strip(n["args"][1]).get("ty"))
+        v = ("opaque", "emitted", w)
+    return [(symex.UNIT, s.effect(("emit", w, v)))]
+
+
 class JitModel:
     def __init__(self, cx):
         self.cx = cx
@@ -37,7 +63,7 @@ class JitModel:
         if not self.ok:
             return
         self.lm = models.LoopModel(F, self.fn)
-        self.lm.ev = symex.Evaluator(F, macro_hooks={"emit_bytes": emit_hook}, max_depth=10)
+        self.lm.ev = symex.Evaluator(F, macro_hooks={"emit_bytes": emit_hook}, max_depth=10, models={p: emit_model for p in emit_functions(F)})
         self.pcname, self.pcid = models.loop_counter_name(F, self.fn)
         self.regmap = F.const("jit::REGISTER_MAP")
         self.extra = {}
@@ -80,6 +106,7 @@ class JitModel:
             pcv = st.env.get((owner, self.pcid))
             out.append({"conds": [self.canon(c) for c in st.conds], "items": items, "pc": self.canon(pcv) if pcv is not None else None,
                         "unrec": [u for u in st.unrec if "field write on symbolic" not in u], "err": err,
+                        "panic_in": next((e[1] for e in st.effects if e[0] == "panic_in"), None),
                         "lookups": [self.canon(e) for e in st.effects if e[0] == "call" and isinstance(e[1], str) and e[1].endswith("HashMap<K, V, S, A>::get")]})
         return out
 
